@@ -360,13 +360,41 @@ def cnStep (m : NameMap) (rr : RR) : NameMap :=
 /-- the `cname_map` built by `follow_cnames`. -/
 def buildMap (rrs : List RR) : NameMap := rrs.foldl cnStep []
 
+/-- the map actually followed (Rust fix 95d17ac): empty for a question of type CNAME (the alias
+    record is the answer and is not followed), the `cname_map` of the records otherwise. -/
+def followMap (rrs : List RR) (qtype : Nat) : NameMap :=
+  if qtype == RT_CNAME then [] else buildMap rrs
+
+theorem followMap_cname (rrs : List RR) : followMap rrs RT_CNAME = [] := rfl
+
+theorem followMap_of_ne {qtype : Nat} (h : qtype ≠ RT_CNAME) (rrs : List RR) :
+    followMap rrs qtype = buildMap rrs := by
+  unfold followMap
+  simp [h]
+
+/-- the followed map is the `cname_map` of a sub-list of the records (none of them for a CNAME
+    question). -/
+theorem followMap_eq_buildMap (rrs : List RR) (qtype : Nat) :
+    followMap rrs qtype = buildMap (if qtype == RT_CNAME then [] else rrs) := by
+  unfold followMap
+  split <;> rfl
+
 theorem followCnames_eq (rrs : List RR) (target : Name) (qtype : Nat) :
     followCnames rrs target qtype =
-      match followLoop (buildMap rrs) ((buildMap rrs).length + 1) target [] [] with
+      match followLoop (followMap rrs qtype) ((followMap rrs qtype).length + 1) target [] [] with
       | none => none
       | some (finalName, seen, followed) =>
         if rrs.any (fun rr => rr.name == target && rtypeMatches rr.rtype qtype) || !seen.isEmpty
         then some (finalName, followed) else none := rfl
+
+/-- a question for the CNAME type: nothing is followed; the question name is returned (with no
+    followed link) exactly when the records hold a CNAME record owned by it. -/
+theorem followCnames_cname (rrs : List RR) (target : Name) :
+    followCnames rrs target RT_CNAME =
+      if rrs.any (fun rr => rr.name == target && rtypeMatches rr.rtype RT_CNAME)
+      then some (target, []) else none := by
+  rw [followCnames_eq, followMap_cname]
+  simp [followLoop, nmGet]
 
 /-- the target of the last CNAME record of `rrs` owned by `a` (a later insert overwrites). -/
 def lastCname : List RR → Name → Option Name
@@ -445,11 +473,27 @@ theorem chain_iff_links {m : NameMap} {n : Name} {path : List Name} :
     rw [linksOf_cons]
     simp only [ChainFrom, ih, List.mem_cons, forall_eq_or_imp]
 
-/-- structure of a successful `followCnames`. -/
-theorem followCnames_some {rrs : List RR} {target : Name} {qtype : Nat} {fin : Name} {followed : NameMap}
+/-- a chain in the empty map has no link. -/
+theorem chainFrom_nil {n : Name} {path : List Name} (h : ChainFrom [] n path) : path = [] := by
+  cases path with
+  | nil => rfl
+  | cons t p => exact absurd h.1 (by simp [nmGet])
+
+/-- a chain of the followed map is a chain of the `cname_map` of all records. -/
+theorem chainFrom_followMap {rrs : List RR} {qtype : Nat} {n : Name} {path : List Name}
+    (h : ChainFrom (followMap rrs qtype) n path) : ChainFrom (buildMap rrs) n path := by
+  by_cases hq : qtype = RT_CNAME
+  · subst hq
+    rw [followMap_cname] at h
+    rw [chainFrom_nil h]
+    trivial
+  · rwa [followMap_of_ne hq] at h
+
+/-- structure of a successful `followCnames`, in terms of the map that was followed. -/
+theorem followCnames_some' {rrs : List RR} {target : Name} {qtype : Nat} {fin : Name} {followed : NameMap}
     (h : followCnames rrs target qtype = some (fin, followed)) :
-    ∃ path, ChainFrom (buildMap rrs) target path ∧ (target :: path).Nodup ∧ fin = lastOr target path ∧
-      nmGet (buildMap rrs) fin = none ∧ followed = linksOf target path ∧
+    ∃ path, ChainFrom (followMap rrs qtype) target path ∧ (target :: path).Nodup ∧ fin = lastOr target path ∧
+      nmGet (followMap rrs qtype) fin = none ∧ followed = linksOf target path ∧
       (path = [] → rrs.any (fun rr => rr.name == target && rtypeMatches rr.rtype qtype) = true) := by
   rw [followCnames_eq] at h
   split at h
@@ -470,5 +514,75 @@ theorem followCnames_some {rrs : List RR} {target : Name} {qtype : Nat} {fin : N
         subst hnil
         simpa using hcond
     · cases h
+
+/-- structure of a successful `followCnames`, in terms of the `cname_map` of all records: the
+    followed chain is a chain of that map; unless the question type is CNAME (then nothing is
+    followed: `path = []`) it ends at a name without CNAME record. -/
+theorem followCnames_some {rrs : List RR} {target : Name} {qtype : Nat} {fin : Name} {followed : NameMap}
+    (h : followCnames rrs target qtype = some (fin, followed)) :
+    ∃ path, ChainFrom (buildMap rrs) target path ∧ (target :: path).Nodup ∧ fin = lastOr target path ∧
+      (qtype ≠ RT_CNAME → nmGet (buildMap rrs) fin = none) ∧ followed = linksOf target path ∧
+      (path = [] → rrs.any (fun rr => rr.name == target && rtypeMatches rr.rtype qtype) = true) ∧
+      (qtype = RT_CNAME → path = []) := by
+  obtain ⟨path, h1, h2, h3, h4, h5, h6⟩ := followCnames_some' h
+  refine ⟨path, chainFrom_followMap h1, h2, h3, ?_, h5, h6, ?_⟩
+  · intro hq
+    rwa [followMap_of_ne hq] at h4
+  · intro hq
+    subst hq
+    rw [followMap_cname] at h1
+    exact chainFrom_nil h1
+
+/-! ### questions for the CNAME type (Rust fix 95d17ac) -/
+
+theorem rtypeMatches_cname (rt : Nat) : rtypeMatches rt RT_CNAME = (rt == RT_CNAME) := rfl
+
+/-- with no followed link, the filter keeps exactly the records of the asked type at the final
+    name. -/
+theorem ansKeep_nil (q : Question) (fin : Name) (an : RR) :
+    ansKeep q fin [] an = (rtypeMatches an.rtype q.qtype && an.name == fin) := by
+  unfold ansKeep
+  cases cnameTarget an <;> simp [nmGet]
+
+/-- the filter on a CNAME question whose answer section holds a CNAME record owned by the question
+    name: the known CNAME records owned by the question name, as an answer. -/
+theorem validate_cname_question_some {q : Question} {resp : Message} {mc : Nat} (hq : q.qtype = RT_CNAME)
+    (hany : resp.answers.any (fun rr => rr.name == q.name && rtypeMatches rr.rtype RT_CNAME) = true) :
+    validateNameserverResponse q resp mc =
+      if ((knownOf resp).filter (fun an => rtypeMatches an.rtype RT_CNAME && an.name == q.name)).isEmpty
+      then none
+      else some (.answer
+        ((knownOf resp).filter (fun an => rtypeMatches an.rtype RT_CNAME && an.name == q.name)) none) := by
+  have hk : ansKeep q q.name [] = fun an => rtypeMatches an.rtype RT_CNAME && an.name == q.name := by
+    funext an
+    rw [ansKeep_nil, hq]
+  rw [validate_eq, hq, followCnames_cname, if_pos hany]
+  simp only [hk]
+  generalize hK : knownOf resp = K
+  by_cases hf : (K.filter (fun an => rtypeMatches an.rtype RT_CNAME && an.name == q.name)).isEmpty = true
+  · simp only [hf, if_true]
+    split <;> rfl
+  · have hne : K.filter (fun an => rtypeMatches an.rtype RT_CNAME && an.name == q.name) ≠ [] := by
+      intro h0; rw [h0] at hf; exact hf rfl
+    obtain ⟨w, hw⟩ := List.exists_mem_of_ne_nil _ hne
+    obtain ⟨hwK, hwp⟩ := List.mem_filter.mp hw
+    have hKne : K.isEmpty = false := by
+      cases K with
+      | nil => cases hwK
+      | cons _ _ => rfl
+    have hKany : K.any (fun an => rtypeMatches an.rtype RT_CNAME && an.name == q.name) = true :=
+      List.any_eq_true.mpr ⟨w, hwK, hwp⟩
+    simp only [hKne, hf, hKany, Bool.false_eq_true, if_false, if_true]
+
+/-- the filter on a CNAME question whose answer section holds no CNAME record owned by the question
+    name: referral or negative answer only. -/
+theorem validate_cname_question_none {q : Question} {resp : Message} {mc : Nat} (hq : q.qtype = RT_CNAME)
+    (hany : resp.answers.any (fun rr => rr.name == q.name && rtypeMatches rr.rtype RT_CNAME) = false) :
+    validateNameserverResponse q resp mc =
+      match chooseNs (getBetterNsNames resp.answers q.name mc) (getBetterNsNames resp.authority q.name mc) with
+      | none => (getNxdomainNodataSoa q resp mc).map (fun soa => .answer [] (some soa))
+      | some (mn, ns) => some (.delegation (delegRrs resp mn ns) ns mn) := by
+  rw [validate_eq, hq, followCnames_cname, hany]
+  rfl
 
 end Resolved
